@@ -222,12 +222,74 @@ pub fn run(ctx: &Ctx) -> i32 {
         Acc::merge,
         acc_zero,
     );
+    // literal clause over spellings the printer never produces: every text of <= 5 characters over the characters
+    // decimal number syntax is made of; where string->number makes a number of the spelling, the same characters as
+    // program text must denote that number
+    let alphabet: Vec<char> = "015eE+-./".chars().collect();
+    let k = alphabet.len() as u64;
+    let n_spell: u64 = (1..=5).map(|l| k.pow(l)).sum();
+    let a5 = par_fold(
+        n_spell,
+        256,
+        || None::<Vm>,
+        |vm, acc, mut i| {
+            let mut len = 1u32;
+            while i >= k.pow(len) {
+                i -= k.pow(len);
+                len += 1;
+            }
+            let mut s = String::new();
+            for _ in 0..len {
+                s.push(alphabet[(i % k) as usize]);
+                i /= k;
+            }
+            acc.evals += 1;
+            let f = list(vec![sym("string->number"), Cell::String(s.clone())]);
+            let want = match scheme(vm, &f) {
+                Ok(Ok(Cell::Number(n))) => n,
+                Ok(Ok(_)) | Ok(Err(_)) => {
+                    acc.outcome("not-a-number-spelling");
+                    return;
+                }
+                Err(m) => {
+                    acc.violation(Violation { key: format!("spelling:{}", s), class: Some("spelling/string->number".into()), observed: "panic".into(), detail: json!({"session": [format!("{:#}", f)], "panic": m}) });
+                    return;
+                }
+            };
+            let v = vm.get_or_insert_with(Vm::new);
+            let r = std::panic::catch_unwind(std::panic::AssertUnwindSafe(|| v.eval_text(&s).map(|(c, rest)| (c, rest.map(|s| s.to_string())))));
+            match r {
+                Ok(Ok((Cell::Number(n), None))) if same_number(&n, &want) => {
+                    acc.nontrivial += 1;
+                    acc.outcome("literal-agrees");
+                }
+                Err(e) => {
+                    *vm = None;
+                    acc.violation(Violation { key: format!("spelling:{}", s), class: Some("spelling/literal".into()), observed: "panic".into(), detail: json!({"session": [s], "panic": panic_message(&e)}) });
+                }
+                Ok(other) => {
+                    let shown = match other {
+                        Ok((c, rest)) => format!("{:#} (remaining text {:?})", c, rest),
+                        Err(e) => format!("error: {}", e),
+                    };
+                    acc.violation(Violation {
+                        key: format!("spelling:{}", s),
+                        class: Some("spelling/literal".into()),
+                        observed: "literal-denotes-different-value".into(),
+                        detail: json!({"session": [s, format!("{:#}", f)], "as_program_text": shown, "string_to_number": format!("{:#}", Cell::Number(want))}),
+                    });
+                }
+            }
+        },
+        Acc::merge,
+        acc_zero,
+    );
     let mut acc = Acc::new();
-    for a in [a1, a2, a3, a4] {
+    for a in [a1, a2, a3, a4, a5] {
         acc = Acc::merge(acc, a);
     }
     rep.rule = format!(
-        "(string->number (number->string z r) r) must be a number with z's value and exactness, and eval_text of the printed spelling with the #b/#o/#d/#x prefix (and bare for r = 10) must denote the same value; with an exactness prefix (#e / #i, on either side of the radix prefix) it must denote what inexact->exact / exact->inexact make of that value. z x r enumerated: the {} exact palette numbers in every representation x {{2,8,10,16}}; {} integers (k*2^e+d, and every integer of magnitude <= 70 000 - thorough: 1 100 000, all five-hex-digit numbers) x 4 radices; all reduced p/q with |p| <= 1100, q in 1..33 or 480..500 x 4 radices; finite doubles at radix 10: every {}-th of the {} structured doubles (every exponent field x 24 mantissa patterns x 2 signs), {} special values, the C09 float palette. Non-trivial = the whole inverse law held for that (z, r); cases are distinct (value, representation, radix) triples.",
+        "(string->number (number->string z r) r) must be a number with z's value and exactness, and eval_text of the printed spelling with the #b/#o/#d/#x prefix (and bare for r = 10) must denote the same value; with an exactness prefix (#e / #i, on either side of the radix prefix) it must denote what inexact->exact / exact->inexact make of that value. z x r enumerated: the {} exact palette numbers in every representation x {{2,8,10,16}}; {} integers (k*2^e+d, and every integer of magnitude <= 70 000 - thorough: 1 100 000, all five-hex-digit numbers) x 4 radices; all reduced p/q with |p| <= 1100, q in 1..33 or 480..500 x 4 radices; finite doubles at radix 10: every {}-th of the {} structured doubles (every exponent field x 24 mantissa patterns x 2 signs), {} special values, the C09 float palette. Literal clause beyond the printer's spellings: every text of <= 5 characters over 0 1 5 e E + - . / that string->number turns into a number must, as program text, denote that number. Non-trivial = the whole inverse law held for that (z, r) / the literal agreed; cases are distinct (value, representation, radix) triples and distinct spellings.",
         n_exact, n_extra, step, nd, specials.len()
     );
     rep.assumptions.push("NaN and infinities are outside the property".into());
